@@ -499,8 +499,11 @@ def optres(I, st, frame, t, name, tys, method, args, ev):
     if method in ("take", "replace") and I.refs_of(a0):
         return D(a0)
     if method in ("filter", "is_none_or"):
-        if len(args) > 1:
-            I.invoke(st, frame, args[1], [a0], site)
+        if method == "filter" and tagvals(a0, "#v:" + OPT) == {"None"}:
+            return a0      # None.filter(..) is None
+        r = I.invoke(st, frame, args[1], [a0], site) if len(args) > 1 else None
+        if method == "filter" and r is not None and "Option" in name:
+            return with_tag(without_tags(a0), "#filt", r)      # Some iff it was Some and the predicate held
         return without_tags(a0)
     if method in ("zip",) and len(args) == 2:
         return Val(frozenset(), {"0": without_tags(a0), "1": without_tags(args[1])})
@@ -678,6 +681,10 @@ def collections(I, st, frame, t, name, self_ty, tys, trait, method, args, ev):
     if method in ("extend", "extend_from_slice") and len(args) == 2:
         I.write_through(st, a0, elem_of(I, st, args[1]), path=("[*]",))
         return V("Const(())")
+    if method in ("index", "index_mut", "get", "get_mut") and len(args) == 2 and not is_map and \
+            (any("ops::Range" in str(x) or "RangeFull" in str(x) for x in t.get("targs", [])) or const_of(D(args[1])) == "RangeFull"
+             or {"start", "end"} & set(D(args[1]).fields)):
+        return a0      # `v[..]`, `v[a..b]`: a sub-slice of the same collection, not an element
     if method in ELEMENT and args and not (method in ("remove", "pop", "swap_remove")):
         r = elem_ref(I, st, a0)
         if method in ("index", "index_mut", "get", "get_mut") and len(args) == 2 and not is_map:
